@@ -86,6 +86,23 @@ def rule_r1(ctx) -> List[R.Inst]:
     for cv in convs(ctx):
         seen_slots = set()
         src_chart = tgt_chart = None
+        # a loop that casts one list per iteration (a table of the lists to copy) must run to its end: `break` / `return` inside it
+        # leaves every later list of the table unconverted (empty in the result)
+        early = False
+        for lp in (n for n in ast.walk(cv.fn.node) if isinstance(n, ast.For)):
+            if not any(isinstance(x, ast.Call) and call_name(x) == "cast" for x in ast.walk(lp)):
+                continue
+            ex = [x for x in ast.walk(lp) if isinstance(x, (ast.Break, ast.Return)) and
+                  not any(isinstance(l2, (ast.For, ast.While)) and l2 is not lp and any(y is x for y in ast.walk(l2)) for l2 in ast.walk(lp))]
+            if ex:
+                early = True
+                insts.append(R.viol("C08.R1", f"{cv.name}.{cv.fn.name}:list-loop", cv.file, ex[0].lineno,
+                                    f"the loop that converts one list per iteration is left early ('{type(ex[0]).__name__.lower()}' at line "
+                                    f"{ex[0].lineno}): the lists after that point in the table are not converted — the result has them empty "
+                                    f"(tempo and scroll changes of a chart without long notes are gone)",
+                                    construct=f"{cv.name}: {type(ex[0]).__name__.lower()} inside the per-list cast loop"))
+        if early:
+            continue
         for call, tgt, stmt in cv.casts:
             args = list(call.args)
             kw = {k.arg: k.value for k in call.keywords}
